@@ -3,7 +3,8 @@
    (HandleCall -> ValidateAuthentication -> handleAccess) with the observed `access` word of the reply.
    Step index of a result = index of the point inside the case. *)
 From Coq Require Import List NArith ZArith Bool.
-From Verif Require Import Model.Access Corr.Common.
+From Coq Require Import Uint63.
+From Verif Require Import Model.Access Corr.Common Corr.AuthInts.
 Import ListNotations.
 Open Scope N_scope.
 
@@ -16,7 +17,16 @@ Record point := {
   p_ro : bool;           (* export read-only *)
   p_obs : N              (* `access` word of the ACCESS3resok reply *)
 }.
-Definition case := list point.
+
+(* as written by the driver: the same fields, in this order, as primitive integers (see AuthInts.v) *)
+Inductive ipoint := IP (mode fuid fgid euid egid : int) (aux : option (list int)) (access : int) (ro : bool) (obs : int).
+Definition point_of (p : ipoint) : point :=
+  match p with
+  | IP mode fuid fgid euid egid aux access ro obs =>
+      {| p_mode := n_of mode; p_fuid := n_of fuid; p_fgid := n_of fgid; p_euid := n_of euid; p_egid := n_of egid;
+         p_aux := option_map ns_of aux; p_access := n_of access; p_ro := ro; p_obs := n_of obs |}
+  end.
+Definition case := list ipoint.
 
 Definition caller_of (p : point) : caller :=
   {| eff_uid := p_euid p; eff_gid := p_egid p; aux_gids := p_aux p |}.
@@ -35,5 +45,5 @@ Definition check (c : case) : list (N * N) :=
   flat_map (fun ip =>
       (if point_specfail (snd ip) then [(fst ip, code_specfail)] else []) ++
       (if point_mismatch (snd ip) then [(fst ip, code_mismatch)] else []))
-    (index_from 0 c).
+    (index_from 0 (map point_of c)).
 Definition run (cs : list case) : result := run_cases check cs.
